@@ -2,6 +2,7 @@
 """tools/mut_prompt.py <Cxx> <tag>: prints the prompt for a fresh mutation agent and creates its worktree."""
 import json, sys, subprocess, os
 pid, tag = sys.argv[1], sys.argv[2]
+steer = sys.argv[3] if len(sys.argv) > 3 else ''
 props = {json.loads(l)['id']: json.loads(l) for l in open('/verif/properties.jsonl')}
 p = props[pid]
 wt = f"/tmp/mut-{pid.lower()}{tag}"
@@ -19,7 +20,7 @@ Your task: make ONE small, realistic change to the goa source code (the kind of 
   (a) the project still compiles (`go build ./...`),
   (b) the existing test suite still passes exactly as before (`go test -count=1 ./...` — apart from the two always-failing protoc tests), and
   (c) the breakage needs something SPECIFIC to manifest — a particular interleaving, a crash or fault at a particular point, a multi-step sequence of operations, an unusual input or design feature combination, or two sites cooperating — not something ordinary use would expose at once.
-Then write a DEMONSTRATION: a Go test or small program (it may generate code with goa's generators into a temp dir inside {wt} and compile/run it, or call library functions directly) that FAILS with your change and PASSES on the unchanged code. Keep the demonstration self-contained and deterministic if at all possible (if it is probabilistic, say with which probability and make it loop until it is reliable).
+{('To keep independent attempts diverse, aim this attempt at: ' + steer + chr(10)) if steer else ''}Then write a DEMONSTRATION: a Go test or small program (it may generate code with goa's generators into a temp dir inside {wt} and compile/run it, or call library functions directly) that FAILS with your change and PASSES on the unchanged code. Keep the demonstration self-contained and deterministic if at all possible (if it is probabilistic, say with which probability and make it loop until it is reliable).
 
 Deliver, in {wt}/OUT/ :
   - patch.diff : `git diff` of your change to goa (source files only, not the demonstration),
